@@ -23,6 +23,7 @@ package main
 //   //@   inline callee, callee
 //   //@   loop k (hint) invariant expr | unroll N | decreases expr | modifies ...
 //   //@   at <site> assert|use|assume-not-allowed ...
+//   //@   partial                              only explicit clauses proved; safety and callee requires assumed (listed)
 //   //@   maypanic                             explicit panics allowed (not claimed unreachable)
 
 import (
@@ -102,6 +103,7 @@ type funcContract struct {
 	loops    map[int]*loopSpec
 	sites    []*siteSpec
 	mayPanic bool
+	partial  bool // only the explicit clauses are proved; safety checks and callee preconditions are assumed
 	panicsIf *clause
 	line     int
 	file     string
@@ -145,7 +147,7 @@ type pkgContracts struct {
 	text     string
 }
 
-var kwRe = regexp.MustCompile(`^(mode|rawfield|spec|pred|ufun|axiom|lemma|func|property|trusted|requires|ensures|deep|modifies|inline|loop|at|maypanic|panics-unless|seam|opaque|using|by|noframe|raw|noreturn|ghost|reads|guard|concrete|rawtype|rawstores)\b`)
+var kwRe = regexp.MustCompile(`^(mode|rawfield|spec|pred|ufun|axiom|lemma|func|property|trusted|requires|ensures|deep|modifies|inline|loop|at|maypanic|panics-unless|seam|opaque|using|by|noframe|raw|noreturn|ghost|reads|guard|concrete|rawtype|rawstores|partial)\b`)
 
 func loadContracts(dir, pkgPath string) (*pkgContracts, error) {
 	file := filepath.Join(dir, "zz_contracts_verif.go")
@@ -350,6 +352,10 @@ func (fc *funcContract) addClause(kw, rest string, line int) error {
 			fc.rawParams[p] = true
 		}
 	case "maypanic":
+		fc.mayPanic = true
+	case "partial":
+		// explicit clauses only: run-time safety checks and callee preconditions are assumed
+		fc.partial = true
 		fc.mayPanic = true
 	case "panics-unless":
 		e, err := parseSexpr(rest)
